@@ -744,6 +744,16 @@ func (b *BlockWise[C]) getCachedReceivedMessage(mg *messageGuard, r *pool.Messag
 	return mg.Message, closeFn, nil
 }
 
+// requestedBlock2 reports whether the request itself asked for exactly this block of the response.
+func requestedBlock2(sentRequest *pool.Message, num int64) bool {
+	block, err := sentRequest.GetOptionUint32(message.Block2)
+	if err != nil {
+		return false
+	}
+	_, requested, _, err := DecodeBlockOption(block)
+	return err == nil && requested == num
+}
+
 //nolint:gocyclo,gocognit
 func (b *BlockWise[C]) processReceivedMessage(w *responsewriter.ResponseWriter[C], r *pool.Message, maxSzx SZX, next func(w *responsewriter.ResponseWriter[C], r *pool.Message), blockType message.OptionID, sizeType message.OptionID) error {
 	token := r.Token()
@@ -807,8 +817,17 @@ func (b *BlockWise[C]) processReceivedMessage(w *responsewriter.ResponseWriter[C
 				// present this one block to the application as a complete request.
 				return errors.New("cannot complete request body: preceding blocks are missing")
 			}
-			next(w, r)
-			return nil
+			if blockType != message.Block2 || num == 0 || requestedBlock2(sentRequest, num) {
+				next(w, r)
+				return nil
+			}
+			// The final block of a response body whose earlier blocks are not (or no longer) held: the
+			// reassembly state has timed out while the request is still waiting. Handing it on would
+			// present this one block to the caller as the complete body. A GET is repeated from the
+			// first block of its response instead; a request with side effects cannot be repeated.
+			if sentRequest.Code() != codes.GET {
+				return errors.New("cannot complete response body: preceding blocks are missing")
+			}
 		}
 	}
 	cachedReceivedMessage, closeCachedReceivedMessage, err := b.getCachedReceivedMessage(cachedReceivedMessageGuard, r, tokenStr, validUntil)
